@@ -6395,7 +6395,8 @@ static void parseSingleResponseRevocationTimeAndReason(
             sizeof(res->revocationTime));
         /* revocationReason    [0]     EXPLICIT CRLReason OPTIONAL
            CRLReason ::= ENUMERATED [RFC 5280] */
-        if (glen >= sizeof(res->revocationTime) + 0x5 &&
+        /* The reason is 5 more octets: p[17]..p[21]. */
+        if (glen >= sizeof(res->revocationTime) + 2 + 5 &&
             p[17] == 0xa0 &&     /* [0] */
             p[18] == 0x03 &&     /* length */
             p[19] == 0x0a &&     /* ENUMERATED */
